@@ -116,6 +116,22 @@ func options() []optCase {
 		s := mark("MARK-shared")
 		return map[reflect.Type]*jsonschema.Schema{overrideTypes["Inner"]: s, overrideTypes["NamedStruct"]: s, overrideTypes["MyInt"]: s}
 	}
+	// an override that is not a tree itself: one subschema object used at two (three) positions; every
+	// occurrence in the result is a copy of its own (the result is a tree that Resolve accepts)
+	for _, n := range []string{"Inner", "NamedStruct", "MyInt"} {
+		n := n
+		t := overrideTypes[n]
+		out = append(out, optCase{name: fmt.Sprintf("TypeSchemas[%s] override with one subschema used twice", n),
+			ts: func() map[reflect.Type]*jsonschema.Schema {
+				m := mark("MARK-" + n)
+				m.Properties["aa_MARK-"+n] = m.Properties["zz_MARK-"+n]
+				if n != "Inner" { // an override of an embedded struct may carry only type and properties
+					m.AdditionalProperties = m.Properties["zz_MARK-"+n]
+				}
+				return map[reflect.Type]*jsonschema.Schema{t: m}
+			},
+			marks: map[reflect.Type]string{t: "MARK-" + n}})
+	}
 	out = append(out, optCase{name: "TypeSchemas shared *Schema", ts: shared,
 		marks: map[reflect.Type]string{overrideTypes["Inner"]: "MARK-shared", overrideTypes["NamedStruct"]: "MARK-shared", overrideTypes["MyInt"]: "MARK-shared"}})
 	return out
@@ -398,7 +414,7 @@ func Run(r *ev.Run) {
 		ts = append(gen.Composites(3), gen.Catalog()...)
 	}
 	opts := options()
-	r.Rule("G-type (C04's types plus recursive and unsupported-kind types) x options {nil, IgnoreInvalidTypes, TypeSchemas overriding each of 6 named types (incl. embedded ones) with a marked schema, with/without IgnoreInvalidTypes, the same with the override written as a Types list (3 forms, spare capacity), overrides of time.Time and big.Int, one *Schema shared by three entries} x JSONSCHEMAGODEBUG in {unset, typeschemasnull=1, typeschemasnull=0} (separate worker processes). Per call: (1) two calls give deep-equal trees and identical bytes; (2) the Schema pointer sets of both results and of the supplied TypeSchemas are pairwise disjoint; (3) Resolve accepts the result; (4) properties = the fields encoding/json emits (independent re-implementation of its field selection, itself checked against json.Marshal of a fully populated value), PropertyOrder = field order; (5) required = fields with neither omitempty nor omitzero; (6) pointer-ness (and slices) add null; (7) the override mark appears once per occurrence, at exactly the positions of the overridden type, with null added exactly once for pointer uses; clauses 4-6 are checked under every option set (with IgnoreInvalidTypes: minus the fields of unsupported type); (8) recursive types: error; (9) unsupported kinds: error, or dropped with IgnoreInvalidTypes. (11) after the caller has overwritten everything reachable from one result, a further call with the same arguments returns the original value (option sets without TypeSchemas); (10) the generic For[T] agrees with ForType on 14 types x every option set, and options never linger into a later call. Non-trivial = every (type, options) call")
+	r.Rule("G-type (C04's types plus recursive and unsupported-kind types) x options {nil, IgnoreInvalidTypes, TypeSchemas overriding each of 6 named types (incl. embedded ones) with a marked schema, with/without IgnoreInvalidTypes, the same with the override written as a Types list (3 forms, spare capacity), overrides of time.Time and big.Int, one *Schema shared by three entries, overrides in which one subschema object occurs at two or three positions} x JSONSCHEMAGODEBUG in {unset, typeschemasnull=1, typeschemasnull=0} (separate worker processes). Per call: (1) two calls give deep-equal trees and identical bytes; (2) the Schema pointer sets of both results and of the supplied TypeSchemas are pairwise disjoint; (3) Resolve accepts the result; (4) properties = the fields encoding/json emits (independent re-implementation of its field selection, itself checked against json.Marshal of a fully populated value), PropertyOrder = field order; (5) required = fields with neither omitempty nor omitzero; (6) pointer-ness (and slices) add null; (7) the override mark appears once per occurrence, at exactly the positions of the overridden type, with null added exactly once for pointer uses; clauses 4-6 are checked under every option set (with IgnoreInvalidTypes: minus the fields of unsupported type); (8) recursive types: error; (9) unsupported kinds: error, or dropped with IgnoreInvalidTypes. (11) after the caller has overwritten everything reachable from one result, a further call with the same arguments returns the original value (option sets without TypeSchemas); (10) the generic For[T] agrees with ForType on 14 types x every option set, and options never linger into a later call. Non-trivial = every (type, options) call")
 	r.Assume("encoding/json is the oracle for the field set; the independent field-selection model must reproduce json.Marshal's keys on every type (else harness error)",
 		"where an embedded struct type is overridden through TypeSchemas the golden tests pin sorted order and non-required: clauses 4-5 are skipped for such structs")
 	r.Set("types", len(ts))
